@@ -243,6 +243,7 @@ func RunC05(c *engine.Ctx) {
 	c.Add("states", int64(len(rcrypto.Etypes)*(maxLen+1)*len(Usages)))
 	c.Add("transitions", ev)
 	c.Add("traces_validated_against_impl", ev)
+	siblingEtypes(c)
 	concurrentSchedules(c, "C05")
 	c.Cov["rule"] = "full product etype(6) x plaintext length 0..130 x usage set x keys x 2 directions; distinct = (etype,len,usage) cells in which both directions agreed with the reference"
 }
